@@ -145,6 +145,19 @@ def build_txns(data_atoms, names, rnd, variant):
         dict(date=d(2025, 2, 2), raw_description='401K', description='Fidelity', amount=-250.0 if variant % 3 == 0 else 250.0, merchant='Fidelity',
              category='Invest', subcategory='', source='Card', location=None, tags=['investment']),
     ]
+    if variant == 12:
+        # a statement on which NO merchant ends with a positive total: refunds, a purchase refunded in full (a total of exactly
+        # zero) and a card payment going out as a transfer
+        return [
+            dict(date=d(2025, 1, 5), raw_description=desc + ' refund', description=n1, amount=-40.25, merchant=n1, category='Food', subcategory='Grocery',
+                 source='Card', location='WA', tags=['weekly'], extra_fields={'note': desc}),
+            dict(date=d(2025, 2, 7), raw_description='bought ' + desc, description=n2, amount=100.0, merchant=n2, category='Bills & <Co>', subcategory='',
+                 source='Card', location=None, tags=[]),
+            dict(date=d(2025, 2, 9), raw_description='returned ' + desc, description=n2, amount=-100.0, merchant=n2, category='Bills & <Co>', subcategory='',
+                 source='Card', location=None, tags=[]),
+            dict(date=d(2025, 2, 1), raw_description='CARD PAYMENT', description='Savings', amount=-500.0, merchant='Savings', category='Transfers',
+                 subcategory='', source='Card', location=None, tags=['transfer']),
+        ]
     if variant % 4 in (1, 2):
         # one merchant, transactions with DIFFERENT special tags (two rules share the merchant name; a conditional tag): a card whose
         # payment is a transfer and whose annual fee is spending, an employer whose reimbursement is not income
@@ -194,7 +207,7 @@ def run_case(data_atoms, names, seed, with_views):
     from tally.report import write_summary_file_vue
     from tally.section_engine import parse_sections
     rnd = random.Random(seed)
-    variant = rnd.randrange(12)
+    variant = rnd.randrange(13)
     txns = build_txns(data_atoms, names, rnd, variant)
     fails = []
     feats = sorted(set(a for a in data_atoms if a != 'txt'))
